@@ -21,7 +21,7 @@ void glue_fill(uint8_t *b, uint8_t *shadow, int n) {
   }
 }
 
-void glue_begin(int p) { g_cur_prog = p; g_cur_line = 0; }
+void glue_begin(int p) { g_cur_prog = p; g_cur_line = 0; for (int i = 0; i < KMAX; i++) g_pos[p][i] = -1; }
 
 int glue_count_instr(int p) {
   int c = 0;
